@@ -154,6 +154,48 @@ SELECTIONS = [("default", [], ["get_holder", "other_op"]), ("all", ["--all-schem
               ("only", ["--only", "get_holder"], ["get_holder"]), ("exclude", ["--exclude", "other_op"], ["get_holder"])]
 
 
+def twin_spec(groups, with_params):
+    """several groups of operations with identical response sets (the response enums of a group are merged into one),
+    next to request structs for path-item parameters"""
+    schemas = {"JobSpec": {"type": "object", "required": ["command"], "properties": {"command": {"type": "string"}}},
+               "Receipt": {"type": "object", "properties": {"id": {"type": "string"}}},
+               "Job": {"type": "object", "properties": {"id": {"type": "string"}, "spec": ref("JobSpec")}},
+               "Note": {"type": "object", "properties": {"text": {"type": "string"}}},
+               "Lonely": {"type": "object", "properties": {"n": {"type": "integer"}}}}
+    resp_of = [("201", "Receipt"), ("200", "Job"), ("202", "Note")]
+    paths, ids = {}, []
+    for g in range(groups):
+        code, sch = resp_of[g]
+        for k in range(3 if g == 1 else 2):
+            item = {}
+            if with_params:
+                item["parameters"] = [{"name": "key", "in": "path", "required": True, "schema": {"type": "string"}}]
+            op = {"operationId": f"grp{g}_op{k}", "responses": {code: {"description": "same in the whole group", "content": {"application/json": {"schema": ref(sch)}}}}}
+            if g == 0:
+                op["requestBody"] = {"required": True, "content": {"application/json": {"schema": ref("JobSpec")}}}
+            item["post" if g == 0 else "get"] = op
+            paths[f"/g{g}/r{k}" + ("/{key}" if with_params else "")] = item
+            ids.append(op["operationId"])
+    paths["/solo/{w}"] = {"delete": {"operationId": "solo_op", "parameters": [{"name": "w", "in": "path", "required": True, "schema": {"type": "string"}},
+                                                                           {"name": "drain", "in": "query", "schema": {"type": "boolean"}}], "responses": {"204": {"description": "gone"}}}}
+    ids.append("solo_op")
+    return {"openapi": "3.1.0", "info": {"title": "twins", "version": "1"}, "paths": paths, "components": {"schemas": schemas}}, ids
+
+
+def twin_cases():
+    out = []
+    for groups in (1, 2, 3):
+        for wp in (False, True):
+            spec, ids = twin_spec(groups, wp)
+            sels = [("default", [], ids), ("all", ["--all-schemas"], None), ("only", ["--only", ",".join(ids[:3])], ids[:3]),
+                    ("exclude", ["--exclude", ids[0]], ids[1:])]
+            if groups >= 2:
+                sels.append(("exclude-g1", ["--exclude", "grp1_op0"], [i for i in ids if i != "grp1_op0"]))
+            for (sel, flags, sids) in sels:
+                out.append({"name": f"twins{groups}{'p' if wp else ''}/{sel}", "pos": "twins", "kind": f"groups={groups}", "sel": sel, "flags": flags, "ids": sids, "spec": spec})
+    return out
+
+
 # ---------------------------------------------------------------- spec -> model input
 
 def resolve_comp(spec, obj, section):
@@ -248,6 +290,7 @@ def main(tier, seed, replay=None):
             spec = build_spec(pos, kind)
             for (sel, flags, ids) in SELECTIONS:
                 cases.append({"name": f"{pos}/{kind}/{sel}", "pos": pos, "kind": kind, "sel": sel, "flags": flags, "ids": ids, "spec": spec})
+    cases.extend(twin_cases())
     n_matrix = len(cases)
     # random compositions from the feature grammar, all four selections on the first operation id
     for i in range(12 if tier == "quick" else 150):
@@ -356,7 +399,7 @@ def main(tier, seed, replay=None):
                        "traces_validated_against_impl": n_closed, "exhaustive": True, "emitted_type_items": n_emitted,
                        "generator_failures_on_grammar_specs": gen_fail, "reachable_in_model_but_no_item": reach_not_emitted,
                        "rustc_checked_modules": len(pick),
-                       "rule": "exhaustive matrix {reference position: 17 schema-level positions (incl. nullable / untyped array items), discriminator mapping, an inline twin of a component only another operation uses, 16 operation-level positions incl. binary / text media types on non-success and default responses; the unselected operation's path item has parameters of its own} x {12 kinds of referenced schema} x {default, --all-schemas, --only, --exclude} (inapplicable pairs skipped), plus feature-grammar specs; client-mod output read back with syn: every type name mentioned by a struct field / enum variant / alias is defined exactly once in types.rs or is external; with default scoping every emitted component-schema type lies in the extracted model's expanded set; rustc name resolution (E0412/E0425/E0428/E0432/E0433) on whole modules (sample in quick, all in thorough)"})
+                       "rule": "exhaustive matrix {reference position: 17 schema-level positions (incl. nullable / untyped array items), discriminator mapping, an inline twin of a component only another operation uses, one to three groups of operations with identical response sets (merged response enums) next to path-item parameter structs, 16 operation-level positions incl. binary / text media types on non-success and default responses; the unselected operation's path item has parameters of its own} x {12 kinds of referenced schema} x {default, --all-schemas, --only, --exclude} (inapplicable pairs skipped), plus feature-grammar specs; client-mod output read back with syn: every type name mentioned by a struct field / enum variant / alias is defined exactly once in types.rs or is external; with default scoping every emitted component-schema type lies in the extracted model's expanded set; rustc name resolution (E0412/E0425/E0428/E0432/E0433) on whole modules (sample in quick, all in thorough)"})
     for c in cases[:4]:
         res.sample({"case": c["name"], "flags": c["flags"]})
     res.cov["trusted_base"] = vlib.COMMON_TRUSTED + [
